@@ -55,6 +55,15 @@ Theorem C20_no_package_level_state : no_globals (bloom_methods ++ gcs_methods) =
 Proof. exact no_package_level_state. Qed.
 Print Assumptions C20_no_package_level_state.
 
+(* GCS immutability, constructor side: no constructor of gcs.Filter stores (an alias of) a reference-typed parameter in
+   the filter, so the filter cannot change when the caller reuses the buffer it was built from (assignment-based taint
+   computed by the translator; the dynamic half mutates every constructor's input after construction) *)
+Theorem C20_gcs_constructors_copy :
+  no_aliasing_inits gcs_field_inits = true /\
+  has_init gcs_field_inits "FromBytes"%string = true /\ has_init gcs_field_inits "BuildGCSFilter"%string = true.
+Proof. exact gcs_constructors_copy. Qed.
+Print Assumptions C20_gcs_constructors_copy.
+
 Theorem C20_nothing_unsupported :
   forallb (fun m => forallb (fun p => negb (existsb is_unsupported p)) (m_paths m)) (bloom_methods ++ gcs_methods) = true.
 Proof. exact nothing_unsupported. Qed.
